@@ -1,17 +1,22 @@
-import HapVerif.Lemmas.C01Step
+import HapVerif.Lemmas.C01Eq
 import HapVerif.Generated.Facts
 /-
 C01 — incremental (partial) resync converges to the configuration of a full sync.
 
-Full-strength statement (the property):
-    for every history (batches of operations on the cluster, one reconciliation after each batch),
-    the items (hosts with their paths, backends) the long-lived controller holds, with their traces, are
-    the items of `syncFull` on the final cluster:
-        ∀ batches, Obs (runHistory rev batches).2.st = Obs (syncFull rev (runHistory rev batches).1)
+Full-strength statement (the property), on the model:
+    for every history (an initial full sync, then any sequence of full and partial syncs whose batches
+    describe the changes of the cluster) the items the long-lived controller holds — host entries (live flag,
+    paths with their backend, trace) and backend traces — are the items `syncFull` computes on the final cluster:
+        ∀ h, GoodHistory w0 h → ObsEq (runSteps rev w0 h) (syncFull rev (lastWorld w0 h))
+"An item's content is a function of its trace" (the decomposition abstraction; the trace lists the declaring
+ingress objects in processing order and the value of every object read) turns equality of the items into
+equality of the configuration; that last step is validated end to end by the harness (long-lived pipeline vs
+fresh pipeline, normal forms compared after every sync), not proved.
+
 It is FALSE for revisions 0 and 1 of the code (`late_ref_rev0`, `late_ref_rev1`: kernel-checked
 counter-examples, replayed on the real pipeline by the harness corpus; repaired by 0a95d71 and b28788a).
 For the current revision (2) this file proves
-  M-Tracker   : `tracker_output`, `tracker_output_reachPlus`, `tracker_remove_no_touch`,
+  M-Tracker   : `tracker_output`, `tracker_output_reachPlus`, `tracker_remove_no_touch`, `tracker_remove_isolates`,
                 `tracker_untouched_adj`, `tracker_untouched_conn`, `tracker_clear`, `go_query_terminates`
   (a)         : `linked_full`, `linked_partial`, `linked_history` — the tracking invariant (every item is
                 connected to each declarer and to each object read for it; every synced ingress to every
@@ -20,6 +25,17 @@ For the current revision (2) this file proves
   (b) closure : `closure_complete_items` (an item whose recorded dependencies changed is dirty),
                 `closure_complete_declarers` (every declarer, in the new cluster, of a dirty host is re-synced),
                 `clean_item_fresh` (what survives was built from objects that did not change)
+  (c)         : `partial_eq_full_step_partial`, `partial_eq_full_partial` — partial = full for all histories,
+                under ONE explicit side condition per partial sync, `SCdef`: when an added/updated ingress has a
+                spec.defaultBackend, the default host is live or has no entry (i.e. there is no record of only
+                FAILED default backends of other ingresses). `trackAddedIngress` does not pre-track the default
+                host in that case, so the new owner is appended to an entry that is not dirty and the ORDER of the
+                touches differs from a full sync (`scdef_trace_order`); the failed declarations contribute
+                nothing to the host, the real pipelines are equal (replayed: corpus of harness/cmd/hv/c01.go,
+                both creation orders). It is a limit of the trace abstraction, not a defect of the code.
+                Assumptions of the statement: `Describes` (the batch lists what changed; checked by the driver on
+                every sync of every case), unique ingress keys, `BackIdInj` (a backend id identifies namespace and
+                service: Kubernetes names contain no `_`), drain-support off.
 -/
 namespace HapVerif.C01
 
@@ -182,6 +198,53 @@ theorem closure_complete_declarers (w w' : World) (b : Batch) (st : St)
   obtain ⟨s, hs, hc⟩ := mem_reach.mp hdirty
   exact ⟨s, hs, hc.trans hold'.symm⟩
 
+/-! ## (c) partial = full -/
+
+/-- what is compared: the entry of every host and the trace of every backend -/
+def ObsEq (st1 st2 : St) : Prop := (∀ h, st1.hm h = st2.hm h) ∧ (∀ x, st1.bm x = st2.bm x)
+
+/-- one partial sync: if the controller state has the items of a full sync on `w` and satisfies the
+tracking invariant, the partial sync for a batch that describes `w → w'` yields the items of a full sync on
+`w'` (side condition `SCdef`, assumptions `BackIdInj`, unique keys) -/
+theorem partial_eq_full_step_partial (rev : Rev) (hrev : 2 ≤ rev) (w w' : World) (b : Batch) (st : St)
+    (hd : Describes w w' b) (hwf : w.WF) (hwf' : w'.WF) (hl : Linked w st)
+    (hobs : ObsEq st (syncFull rev w)) (hinj : BackIdInj w w') (hsc : SCdef b st) :
+    ObsEq (syncPartial rev w' b st) (syncFull rev w') :=
+  partial_eq_full_step ⟨hrev, hd, hwf, hwf', hl, hobs.1, hobs.2, hinj, hsc⟩
+
+/-- a history whose partial syncs also satisfy the side condition and the naming assumption -/
+def GoodHistoryEq (rev : Rev) (w0 : World) : List (World × Batch) → Prop
+  | [] => w0.WF
+  | (w', b) :: rest =>
+    GoodHistoryEq rev w0 rest ∧ w'.WF ∧
+      (b.full = false → Describes (lastWorld w0 rest) w' b ∧ BackIdInj (lastWorld w0 rest) w' ∧
+        SCdef b (runSteps rev w0 rest))
+
+/-- (c) for ALL histories: after the initial full sync and any sequence of full and partial syncs the
+controller holds exactly the items of a full sync on the current cluster, and the tracking invariant -/
+theorem partial_eq_full_partial (rev : Rev) (hrev : 2 ≤ rev) (w0 : World) (h : List (World × Batch))
+    (hg : GoodHistoryEq rev w0 h) :
+    ObsEq (runSteps rev w0 h) (syncFull rev (lastWorld w0 h)) ∧
+      Linked (lastWorld w0 h) (runSteps rev w0 h) ∧ (lastWorld w0 h).WF := by
+  induction h with
+  | nil => exact ⟨⟨fun _ => rfl, fun _ => rfl⟩, linked_syncFull rev hrev w0, hg⟩
+  | cons x rest ih =>
+    obtain ⟨w', b⟩ := x
+    obtain ⟨hg1, hwf', hstep⟩ := hg
+    obtain ⟨hobs, hl, hwf⟩ := ih hg1
+    show ObsEq (step rev w' b (runSteps rev w0 rest)) (syncFull rev w') ∧
+      Linked w' (step rev w' b (runSteps rev w0 rest)) ∧ w'.WF
+    unfold step
+    cases hb : b.full with
+    | true =>
+      simp only [if_true]
+      exact ⟨⟨fun _ => rfl, fun _ => rfl⟩, linked_syncFull rev hrev w', hwf'⟩
+    | false =>
+      simp only [Bool.false_eq_true, if_false]
+      obtain ⟨hd, hinj, hsc⟩ := hstep hb
+      exact ⟨partial_eq_full_step_partial rev hrev _ w' b _ hd hwf hwf' hl hobs hinj hsc,
+        linked_syncPartial rev hrev hd hwf hwf' hl, hwf'⟩
+
 /-! ## non-vacuity and the historical counter-examples (kernel-checked on the model) -/
 
 namespace Witness
@@ -259,6 +322,26 @@ example :
 example : (⟨.ing, "d/i1"⟩ : Node) ∈ dirty w1 b1 (syncFull 2 w0) ∧
     (⟨.back, "d_api_8080"⟩ : Node) ∈ dirty w1 b1 (syncFull 2 w0) ∧
     (resyncList w1 b1 (dirty w1 b1 (syncFull 2 w0))).map (·.key) = ["d/i2", "d/i3"] := by
+  decide +kernel
+
+/-- the side condition `SCdef`: `j1` has a default backend whose service is missing (the default host
+has an entry that is not live); `j2`, OLDER, arrives with a working default backend. The default host is not
+pre-tracked, `j2` is appended to the entry: same paths as a full sync, another ORDER of the touches.
+The real pipelines are equal (corpus replay, both creation orders). -/
+def j1 : Ingress := { ns := "d", name := "j1", created := 2, classAnn := some "haproxy", defBackend := some ("gone", "80") }
+def j2 : Ingress := { ns := "d", name := "j2", created := 1, classAnn := some "haproxy", defBackend := some ("app", "80") }
+def we : World := { ings := [j1], svcs := [svcApp] }
+def wf : World := { ings := [j1, j2], svcs := [svcApp] }
+def bf : Batch := { links := [⟨.ing, "d/j2"⟩], add := [j2] }
+
+theorem scdef_trace_order :
+    (syncFull 2 we).hostLive defaultHost = false ∧ (syncFull 2 we).hm defaultHost ≠ none ∧
+    (((syncPartial 2 wf bf (syncFull 2 we)).hm defaultHost).map (·.paths)) =
+      (((syncFull 2 wf).hm defaultHost).map (·.paths)) ∧
+    (((syncPartial 2 wf bf (syncFull 2 we)).hm defaultHost).map (fun x => x.trace.map (·.what))) =
+      some ["def-nobackend", "def:d_app_8080"] ∧
+    (((syncFull 2 wf).hm defaultHost).map (fun x => x.trace.map (·.what))) =
+      some ["def:d_app_8080", "def-loser"] := by
   decide +kernel
 
 end Witness
